@@ -8,6 +8,7 @@ import (
 	"sort"
 	"strconv"
 	"strings"
+	"sync"
 	"time"
 
 	header "github.com/celestiaorg/go-header"
@@ -202,8 +203,33 @@ func newStoreEnv(cfg StoreCfg, chainLen int) *storeEnv {
 	return e
 }
 
+// storePanics collects panics of the store's own goroutines (flush loop) handed over by the store's
+// verif panic sink, so that they are attributed to the running scenario instead of killing the process.
+var storePanics struct {
+	mu   sync.Mutex
+	list []string
+}
+
+func init() {
+	store.VerifSetPanicSink(func(where string, r any) {
+		storePanics.mu.Lock()
+		storePanics.list = append(storePanics.list, fmt.Sprintf("%s: %v", where, r))
+		storePanics.mu.Unlock()
+	})
+}
+
+// takeStorePanics returns and clears the panics recorded so far.
+func takeStorePanics() []string {
+	storePanics.mu.Lock()
+	defer storePanics.mu.Unlock()
+	out := storePanics.list
+	storePanics.list = nil
+	return out
+}
+
 // open creates and starts a Store over the environment's datastore.
 func (e *storeEnv) open(ctx context.Context) error {
+	takeStorePanics()
 	st, err := store.NewStore[*vh.Header](e.ds, e.cfg.opts()...)
 	if err != nil {
 		e.rejected = err
@@ -235,6 +261,9 @@ func (e *storeEnv) checkStore(tag string) string {
 }
 
 func checkStoreAgainst(st *store.Store[*vh.Header], m *storeModel, chain *vh.Chain, tag string, checkHeight bool) string {
+	if ps := takeStorePanics(); len(ps) > 0 {
+		return fmt.Sprintf("%s: a goroutine of the store panicked: %s", tag, ps[0])
+	}
 	ctx, cancel := vctx(time.Hour)
 	defer cancel()
 	head, herr := st.Head(ctx)
